@@ -1,5 +1,7 @@
 %{
 package sql
+
+import "fmt"
 %}
 
 %union {
@@ -9,8 +11,9 @@ package sql
 	statement interface{}
 	columnNameList []string
 	columnName string
-	columnDefList []ColumnDef
-	columnDef ColumnDef
+	columnDefList []parsedColumn
+	columnDef parsedColumn
+	typeName typeName
 	indexedColumnList []IndexedColumn
 	indexedColumn IndexedColumn
 	name string
@@ -47,7 +50,8 @@ package sql
 %type<columnDef> columnDef
 %type<indexedColumnList> indexedColumnList
 %type<indexedColumn> indexedColumn
-%type<name> typeName constraintName
+%type<typeName> typeName
+%type<name> constraintName
 %type<unique> unique
 %type<withoutRowid> withoutRowid
 %type<collate> collate
@@ -308,7 +312,7 @@ autoincrement:
 
 columnDefList:
 	columnDef {
-		$$ = []ColumnDef{$1}
+		$$ = []parsedColumn{$1}
 	} |
 	columnDefList ',' columnDef {
 		$$ = append($1, $3)
@@ -316,24 +320,24 @@ columnDefList:
 
 columnDef:
 	columnName typeName columnConstraintList {
-		$$ = makeColumnDef($1, $2, $3)
+		$$ = parsedColumn{makeColumnDef($1, $2.name, $3), $2.args}
 	} |
 	REPLACE typeName columnConstraintList {
-		$$ = makeColumnDef("REPLACE", $2, $3)
+		$$ = parsedColumn{makeColumnDef("REPLACE", $2.name, $3), $2.args}
 	}
 
 typeName:
 	{
-		$$ = ""
+		$$ = typeName{}
 	} |
 	identifier {
-		$$ = $1
+		$$ = typeName{name: $1}
 	} |
 	identifier '(' signedNumber ')' {
-		$$ = $1
+		$$ = typeName{$1, fmt.Sprintf("(%d)", $3)}
 	} |
 	identifier '(' signedNumber ',' signedNumber ')' {
-		$$ = $1
+		$$ = typeName{$1, fmt.Sprintf("(%d,%d)", $3, $5)}
 	}
 
 collate:
@@ -515,9 +519,11 @@ selectStmt:
 
 createTableStmt:
 	CREATE TABLE identifier '(' columnDefList tableConstraintList ')' withoutRowid {
+		cols, typeArgs := columnDefs($5)
 		yylex.(*lexer).result = CreateTableStmt{
 			Table: $3,
-			Columns: $5,
+			Columns: cols,
+			TypeArgs: typeArgs,
 			Constraints: $6,
 			WithoutRowid: $8,
 		}
